@@ -1,6 +1,80 @@
-// cfun kinds -- filled in by the corresponding check (see /verif/CONVENTIONS.md).
+// cf.* kinds (C14): the public Complex<f64> elementary / trigonometric / hyperbolic functions.
+//   cf.<name> <z>             one complex argument -> re im   (abs, arg, abs_sqr -> one f64)
+//   cf.pow <z> <w> | cf.log <z> <b> | cf.powf <z> <x> | cf.polar <r> <theta>      -> re im
+//   cf.all <z>                every one-argument function at z:  t<name> re im ...  (real-valued: t<name> v)
+//   cf.seq <f1,f2,..> <z>     f1(z), f2(f1(z)), ...: every intermediate value          (round trips)
+//   cf.powid <z> <w>          pow(z,w), exp(w * ln z), powf(z, re w), log(z, w)        (identities, by the code's own operators)
+//   cf.polarid <z>            polar(|z|, arg z);   cf.polarinv <r> <t>  |polar(r,t)|, arg polar(r,t)
+//   cf.const <NAME>           the f64 constant of src/constant.rs
+// arguments: complex `x<hex>:x<hex>`, real `x<hex>` (bit patterns); results as bit patterns.
 #![allow(unused_imports, dead_code)]
+use ohsl::{Cmplx, Complex};
+use ohsl::traits::One;
 use crate::io::{Args, Out, Elt};
-pub fn run(kind: &str, _a: &mut Args, _out: &mut Out) {
-    panic!("harness: unknown kind {}", kind);
+
+fn cz(a: &mut Args) -> Cmplx { a.s::<Cmplx>() }
+
+pub const UNARY: [&str; 30] = ["conj", "sqrt", "exp", "ln",
+    "sin", "cos", "tan", "sec", "csc", "cot", "asin", "acos", "atan", "asec", "acsc", "acot",
+    "sinh", "cosh", "tanh", "sech", "csch", "coth", "asinh", "acosh", "atanh", "asech", "acsch", "acoth",
+    "neg", "inv"];
+
+fn apply1(name: &str, z: Cmplx) -> Cmplx {
+    match name {
+        "conj" => z.conj(),
+        "neg" => -z,                                   // helpers for the identity search only
+        "inv" => Cmplx::one() / z,
+        "sqrt" => z.sqrt(),
+        "exp" => z.exp(),
+        "ln" => z.ln(),
+        "sin" => z.sin(), "cos" => z.cos(), "tan" => z.tan(),
+        "sec" => z.sec(), "csc" => z.csc(), "cot" => z.cot(),
+        "asin" => z.asin(), "acos" => z.acos(), "atan" => z.atan(),
+        "asec" => z.asec(), "acsc" => z.acsc(), "acot" => z.acot(),
+        "sinh" => z.sinh(), "cosh" => z.cosh(), "tanh" => z.tanh(),
+        "sech" => z.sech(), "csch" => z.csch(), "coth" => z.coth(),
+        "asinh" => z.asinh(), "acosh" => z.acosh(), "atanh" => z.atanh(),
+        "asech" => z.asech(), "acsch" => z.acsch(), "acoth" => z.acoth(),
+        _ => panic!("harness: unknown function {}", name),
+    }
+}
+
+pub fn run(kind: &str, a: &mut Args, out: &mut Out) {
+    let name = kind.strip_prefix("cf.").unwrap_or_else(|| panic!("harness: unknown kind {}", kind));
+    match name {
+        "abs" => { let z = cz(a); out.f(z.abs()); }
+        "arg" => { let z = cz(a); out.f(z.arg()); }
+        "abs_sqr" => { let z = cz(a); out.f(z.abs_sqr()); }
+        "polar" => { let r = a.f64(); let t = a.f64(); out.s(&Complex::<f64>::polar(r, t)); }
+        "pow" => { let z = cz(a); let w = cz(a); out.s(&z.pow(&w)); }
+        "powf" => { let z = cz(a); let x = a.f64(); out.s(&z.powf(x)); }
+        "log" => { let z = cz(a); let b = cz(a); out.s(&z.log(b)); }
+        "const" => {
+            let c = a.word();
+            let v = match c {
+                "PI" => ohsl::constant::PI, "PI_2" => ohsl::constant::PI_2, "PI_4" => ohsl::constant::PI_4,
+                "I_re" => ohsl::constant::I.real, "I_im" => ohsl::constant::I.imag,
+                _ => panic!("harness: unknown constant {}", c),
+            };
+            out.f(v);
+        }
+        "all" => {
+            let z = cz(a);
+            out.tag("abs"); out.f(z.abs());
+            out.tag("arg"); out.f(z.arg());
+            out.tag("abs_sqr"); out.f(z.abs_sqr());
+            for f in UNARY.iter() { out.tag(f); out.s(&apply1(f, z)); }
+        }
+        "seq" => {
+            let fs = a.word(); let mut z = cz(a);
+            for f in fs.split(',') { z = apply1(f, z); out.s(&z); }
+        }
+        "powid" => {
+            let z = cz(a); let w = cz(a);
+            out.s(&z.pow(&w)); out.s(&(w * z.ln()).exp()); out.s(&z.powf(w.real)); out.s(&z.log(w));
+        }
+        "polarid" => { let z = cz(a); out.s(&Complex::<f64>::polar(z.abs(), z.arg())); }
+        "polarinv" => { let r = a.f64(); let t = a.f64(); let p = Complex::<f64>::polar(r, t); out.f(p.abs()); out.f(p.arg()); }
+        _ => { let z = cz(a); out.s(&apply1(name, z)); }
+    }
 }
